@@ -136,4 +136,30 @@ theorem unshuffle_perm {labels index out : List Nat} (hp : index.Perm (List.rang
       simp [List.getElem?_eq_none (Nat.le_of_not_lt hj), List.getElem?_eq_none (Nat.le_of_not_lt hj')]
   exact (e ▸ map_getD_perm hp').symm
 
+/-- ★ the un-shuffle inverts the shuffle: if position `j` of `labels'` holds the label of original node
+    `index[j]` (that is how `adjacency[index][:, index]` numbers the nodes), then `labels'[reverse]` gives every
+    original node its own label back -/
+theorem unshuffle_shuffle {L index : List Nat} (hp : index.Perm (List.range L.length)) :
+    unshuffle (index.map fun v => L.getD v 0) index = .ok L := by
+  have hlen : (index.map fun v => L.getD v 0).length = L.length := by
+    rw [List.length_map, (perm_range_facts hp).2.1]
+  have hp' : index.Perm (List.range (index.map fun v => L.getD v 0).length) := hlen ▸ hp
+  have hok := unshuffle_ok hp'
+  rw [hok]
+  congr 1
+  apply List.ext_getElem?
+  intro v
+  by_cases hv : v < L.length
+  · -- `v` is `index[j]` for some `j`
+    have hmem : v ∈ index := hp.mem_iff.mpr (List.mem_range.mpr hv)
+    obtain ⟨j, hj, rfl⟩ := List.getElem_of_mem hmem
+    have hj' : j < (index.map fun v => L.getD v 0).length := by rw [List.length_map]; exact hj
+    have := unshuffle_getElem? hp' hok hj'
+    rw [List.getD_eq_getElem?_getD, List.getElem?_eq_getElem hj, Option.getD_some] at this
+    rw [this, List.getElem?_map, List.getElem?_eq_getElem hj, Option.map_some]
+    simp [List.getD_eq_getElem?_getD, hv]
+  · have h1 : ¬ v < ((reverseOf index).map fun r => (index.map fun v => L.getD v 0).getD r 0).length := by
+      rw [List.length_map, reverseOf_length, (perm_range_facts hp).2.1]; exact hv
+    rw [List.getElem?_eq_none (Nat.le_of_not_lt h1), List.getElem?_eq_none (Nat.le_of_not_lt hv)]
+
 end SkNet.Clustering
